@@ -272,6 +272,7 @@ class Canon:
 GRAPHS: List[Tuple[str, int, List[Tuple[int, int]]]] = [
     ("single vertex", 1, []),
     ("edge", 2, [(0, 1)]),
+    ("edge+isolated", 3, [(0, 1)]),
     ("path3", 3, [(0, 1), (1, 2)]),
     ("triangle", 3, [(0, 1), (1, 2), (0, 2)]),
     ("star+isolated", 5, [(0, 1), (0, 2), (0, 3)]),
